@@ -71,10 +71,17 @@ def gen_lists(rng):
     backend = rng.choice(["sql", "lmdb"])
     keys = [0, 1, 2]
     a0 = rng.sample(keys, rng.randint(1, 2))
-    a1 = rng.sample(keys, rng.randint(1, 2)) if rng.random() < 0.5 else list(a0)
-    vals = [rng.choice([0, 1, 2, 3]) for _ in range(rng.randint(1, 3))]     # 3 = never listed
+    turn = rng.choice(["same", "overlap", "disjoint", "disjoint"])
+    if turn == "same":
+        a1 = list(a0)
+    elif turn == "disjoint":
+        rest = [k for k in keys if k not in a0]
+        a1 = rng.sample(rest, rng.randint(1, len(rest)))      # complete turnover of the list
+    else:
+        a1 = rng.sample(keys, rng.randint(1, 2))
+    vals = [rng.choice([0, 1, 2, 3, 3, 3]) for _ in range(rng.randint(1, 3))]     # 3 = never listed
     return {"mode": "lists", "backend": backend, "allow0": a0, "allow1": a1, "validators": vals,
-            "whitelist": rng.random() < 0.3,
+            "whitelist": rng.random() < 0.3, "service_key": rng.random() < 0.4,
             # two scheduling styles: fine-grained random stepping, and "start a validation at a random
             # bytecode boundary of the refresh and let it run almost undisturbed" (few pre-emptions,
             # which is how rare windows are usually hit)
@@ -89,11 +96,12 @@ def run_lists(case, sim):
     from ..worlds import store, lists as lw
     from .. import kernel
     backend = case["backend"]
-    svc = evgen.SERVICE
-    cfg = {"service_privatekey": evgen.SERVICE_SK,
-           "dynamic_lists": {"check_interval": 7200, "allow_list_queries": [{"kinds": [3], "authors": [svc.pub]}]}}
+    svc = evgen.KEYS[4]          # the curator whose kind-3 list defines the allow list
+    cfg = {"dynamic_lists": {"check_interval": 7200, "allow_list_queries": [{"kinds": [3], "authors": [svc.pub]}]}}
+    if case.get("service_key", True):
+        cfg["service_privatekey"] = evgen.SERVICE_SK     # its pubkey is then always on the list
     if case.get("whitelist"):
-        cfg["pubkey_whitelist"] = [evgen.KEYS[4].pub]
+        cfg["pubkey_whitelist"] = [evgen.AUTHORS[2].pub]
     w = store.StoreWorld(sim, backend, cfg=cfg)
     out = {}
 
